@@ -119,6 +119,18 @@ Definition lex_tq (s : str) : option (str * str) :=
 (* what CPython reads at a position where a string literal starts *)
 Definition lex_str (s : str) : option (str * str) := if starts3 s then lex_tq s else lex_dq s.
 
+(* '...' literals: the lexer treats the two quote characters symmetrically, so a single-quoted literal is read by
+   exchanging the quote characters, reading a double-quoted literal, and exchanging back (validated against CPython like
+   the rest; a literal starting with three single quotes is not modelled: None) *)
+Definition swapq (c : N) : N := if c =? 34 then 39 else if c =? 39 then 34 else c.
+Definition lex_sq (s : str) : option (str * str) :=
+  match lex_dq (map swapq s) with
+  | Some (v, r) => Some (map swapq v, map swapq r)
+  | None => None
+  end.
+Definition lex_lit (s : str) : option (str * str) :=
+  match s with c :: _ => if c =? 39 then lex_sq s else lex_str s | [] => None end.
+
 (* comment: runs to the end of the PHYSICAL line; the tokenizer ends a line at LF or CR only
    (FF, VT, FS/GS/RS, NEL, LS, PS are ordinary comment characters) and rejects NUL *)
 Definition line_break (c : N) : bool := (c =? 10) || (c =? 13).
@@ -164,6 +176,35 @@ Definition json_esc1 (c : N) : str :=
   else u_esc (55296 + (c - 65536) / 1024) ++ u_esc (56320 + (c - 65536) mod 1024).
 Definition json_esc (t : str) : str := flat_map json_esc1 t.
 
+(* json.dumps(s, ensure_ascii=False)[1:-1]: only the quote, the backslash and the C0 controls are escaped *)
+Definition json_raw1 (c : N) : str :=
+  if c =? 34 then [92; 34] else if c =? 92 then [92; 92]
+  else if c =? 10 then [92; 110] else if c =? 13 then [92; 114] else if c =? 9 then [92; 116]
+  else if c =? 8 then [92; 98] else if c =? 12 then [92; 102]
+  else if c <? 32 then u_esc c else [c].
+Definition json_raw (t : str) : str := flat_map json_raw1 t.
+
+(* repr(s) of a str (unicodeobject.c unicode_repr): single quotes unless the text has a single and no double quote;
+   backslash, the chosen quote, TAB LF CR escaped; other C0 controls and DEL as \xhh; printable characters raw;
+   non-printable non-ASCII as \xhh / \uXXXX / \UXXXXXXXX.  [pr] = str.isprintable on NON-ASCII code points (Unicode
+   data base: an oracle, instantiated from Python in the correspondence run; never consulted below 128). *)
+Definition hex2 (c : N) : str := [hexdig (c / 16); hexdig (c mod 16)].
+Definition x_esc (c : N) : str := 92 :: 120 :: hex2 c.
+Definition U_esc (c : N) : str := 92 :: 85 :: hex4 (c / 65536) ++ hex4 (c mod 65536).
+Definition repr_esc1 (pr : N -> bool) (q c : N) : str :=
+  if c =? 92 then [92; 92] else if c =? q then [92; q]
+  else if c =? 9 then [92; 116] else if c =? 10 then [92; 110] else if c =? 13 then [92; 114]
+  else if (c <? 32) || (c =? 127) then x_esc c
+  else if c <? 127 then [c]
+  else if pr c then [c]
+  else if c <? 256 then x_esc c else if c <? 65536 then u_esc c else U_esc c.
+Definition repr_quote (t : str) : N := if existsb (N.eqb 39) t && negb (existsb (N.eqb 34) t) then 34 else 39.
+Definition py_repr (pr : N -> bool) (t : str) : str :=
+  let q := repr_quote t in q :: flat_map (repr_esc1 pr q) t ++ [q].
+(* Unicode scalar values: what a UTF-8 encoded document can contain *)
+Definition scalar (t : str) : bool := forallb (fun c => negb (is_surrogate c) && (c <=? 1114111)) t.
+Definition in_range (t : str) : bool := forallb (fun c => c <=? 1114111) t.
+
 (* CodeWriter.write_block = str.splitlines() + one write_line per piece: every character str.splitlines()
    breaks at (LF CR VT FF FS GS RS NEL LS PS; CR LF counts once) becomes LF + the current indentation.
    Endpoint method code is passed through it once, inside the class (indentation = 4 spaces). *)
@@ -183,20 +224,28 @@ Fixpoint reflow (ind s : str) : str :=
       else c :: reflow ind r
   end.
 Definition ind4 : str := [32; 32; 32; 32].
+(* the assumption on the oracle actually used: printable non-ASCII characters are not surrogates / out of range / line
+   separators (NEL, LS, PS are not printable) *)
+Definition pr_ok (pr : N -> bool) : Prop :=
+  forall c, pr c = true -> 128 <= c /\ bad_raw c = false /\ is_break c = false.
 
 (* ------------------------------------------------------------------ the rendering sites
    (ids are those of the inventory Gen/T_C15.v; file:line there) *)
-(* value-carrying `…` sites with NO escaping: f'`{x}`' *)
-Definition site_enum_value (t : str) : str := dq t.     (* python_construct_renderer.render_enum  NAME = `value` *)
-Definition site_meta_key (t : str) : str := dq t.       (* render_dataclass Meta key maps (both directions) *)
-Definition site_disc_prop (t : str) : str := dq t.      (* render_alias property_name: str = `…` *)
-Definition site_disc_value (t : str) : str := dq t.     (* render_alias _mapping_data tuples / get_mapping keys *)
-(* the same, then CodeWriter.write_block in endpoint_visitor *)
-Definition site_query_key (t : str) : str := reflow ind4 (dq t).    (* url_args_generator query dict keys *)
-Definition site_header_key (t : str) : str := reflow ind4 (dq t).   (* url_args_generator header dict keys *)
-Definition site_media_type (t : str) : str := reflow ind4 (dq t).   (* overload_generator Literal[…] = … ; response handler *)
-(* the one escaped site: dataclass_generator._get_field_default *)
-Definition site_default (t : str) : str := dq (json_esc t).
+(* value-carrying sites of the model files: json.dumps(x, ensure_ascii=False)  [after the fixes of F15a/b/i/h] *)
+Definition site_enum_value (t : str) : str := dq (json_raw t).   (* python_construct_renderer.render_enum  NAME = <literal> *)
+Definition site_meta_key (t : str) : str := dq (json_raw t).     (* render_dataclass Meta key maps (both directions) *)
+Definition site_disc_prop (t : str) : str := dq (json_raw t).    (* render_alias property_name: str = <literal> *)
+Definition site_disc_value (t : str) : str := dq (json_raw t).   (* render_alias _mapping_data tuples / get_mapping keys *)
+Definition site_default (t : str) : str := dq (json_raw t).      (* dataclass_generator._get_field_default (string default) *)
+(* value-carrying sites of the endpoint files: code_writer.python_string_literal =
+   QUOTE + x.encode(unicode_escape).decode(ascii).replace(QUOTE, backslash QUOTE) + QUOTE, i.e. the escapes of repr with
+   the double quote and nothing printable above ASCII; then CodeWriter.write_block in endpoint_visitor  [fixes of F15f/j] *)
+Definition ascii_lit (t : str) : str := dq (flat_map (repr_esc1 (fun _ => false) 34) t).
+Definition site_query_key (t : str) : str := reflow ind4 (ascii_lit t).    (* url_args_generator query dict keys *)
+Definition site_header_key (t : str) : str := reflow ind4 (ascii_lit t).   (* url_args_generator header / cookie dict keys *)
+Definition site_media_type (t : str) : str := reflow ind4 (ascii_lit t).   (* overload_generator Literal[…] = … ; response handler *)
+(* url_args_generator: Content-Type of a raw bytes body, rendered with !r (repr), then write_block *)
+Definition site_media_repr (pr : N -> bool) (t : str) : str := reflow ind4 (py_repr pr t).
 
 (* dataclass_generator._get_field_default, property whose schema is a named enum:
    f`{ps.name}.{str(default).upper().replace(-, _).replace(space, _)}` - the text becomes an ATTRIBUTE NAME, unquoted.
@@ -206,32 +255,42 @@ Definition dash_sp_to_us (u : str) : str := map (fun c => if (c =? 45) || (c =? 
 Definition site_enum_default_u (upper_t : str) : str := dash_sp_to_us upper_t.
 Definition site_enum_default (t : str) : str := dash_sp_to_us (map upper_ascii t).
 
-(* docstring sites *)
-Definition s_alias_for : str := [65;108;105;97;115;32;102;111;114;32].            (* `Alias for ` *)
-Definition esc_q3 : str := [92;34;92;34;92;34].                                     (* \`\`\` *)
+(* docstring sites  [after the fixes of F15c/d/g/k] *)
+(* documentation_writer.escape_docstring_text: NUL -> space, backslash doubled, then QQQ -> three escaped quotes *)
+Definition nul_sp (t : str) : str := map (fun c => if c =? 0 then 32 else c) t.
+Definition esc_q3 : str := [92;34;92;34;92;34].                                     (* three escaped quotes *)
+Definition doc_esc (t : str) : str := repl3 esc_q3 (dbl_bs (nul_sp t)).
+(* render_alias: NUL -> space, backslash doubled, EVERY double quote escaped (the text abuts the closing quotes) *)
+Definition alias_esc1 (c : N) : str :=
+  if c =? 0 then [32] else if c =? 92 then [92; 92] else if c =? 34 then [92; 34] else [c].
+Definition alias_esc (t : str) : str := flat_map alias_esc1 t.
+Definition s_alias_for : str := [65;108;105;97;115;32;102;111;114;32].            (* Alias for  *)
 Definition site_alias_doc (t : str) : str :=
-  match t with [] => [] | _ => q3 ++ s_alias_for ++ repl3 esc_q3 (dbl_bs t) ++ q3 end.
-Definition s_client_for_q : str := [67;108;105;101;110;116;32;102;111;114;32;39].   (* `Client for '` *)
-Definition s_q_endpoints : str := [39;32;101;110;100;112;111;105;110;116;115;46].   (* `' endpoints.` *)
-Definition site_tag_doc (t : str) : str := q3 ++ s_client_for_q ++ t ++ s_q_endpoints ++ q3.
-(* raw text on its own line(s) between a line QQQ and a line QQQ (overload docstring, wrapper classes,
-   client class docstring after its own clean-up): pre/post are the fixed template parts *)
-Definition site_block_doc (pre post t : str) : str := q3 ++ pre ++ t ++ post ++ q3.
+  match t with [] => [] | _ => q3 ++ s_alias_for ++ alias_esc t ++ q3 end.
+Definition s_client_for_q : str := [67;108;105;101;110;116;32;102;111;114;32;39].   (* Client for ' *)
+Definition s_q_endpoints : str := [39;32;101;110;100;112;111;105;110;116;115;46].   (* ' endpoints. *)
+Definition site_tag_doc (t : str) : str := q3 ++ s_client_for_q ++ doc_esc t ++ s_q_endpoints ++ q3.
+(* escaped text inside a hand-written docstring template (wrapper classes, overload docstring lines, client title):
+   pre/post are the fixed template parts around the interpolated text *)
+Definition site_block_doc (pre post t : str) : str := q3 ++ pre ++ doc_esc t ++ post ++ q3.
 (* the fixed template text after the interpolated value closes the docstring by itself (executable form, rest = []) *)
 Definition post_closes (post : str) : bool :=
   match post with c :: _ => negb (c =? 34) | [] => true end &&
   match lex_go true Nrm (post ++ q3) with Some (_, []) => true | _ => false end.
-
-(* raw text on a line of its own between a line QQQ and a line QQQ (overloaded-method docstring) *)
+(* the first template character after the escaped text: not a quote, not a backslash *)
+Definition sep_ok (sep : N) : bool := negb ((sep =? 34) || (sep =? 92) || bad_raw sep).
+(* text on a line of its own between a line QQQ and a line QQQ (overloaded-method docstring) *)
 Definition site_block_line (t : str) : str := site_block_doc [10] [10] t.
-(* client_visitor: first docstring line  {title} (version {version})  — version text is passed in *)
-Definition site_client_title (version t : str) : str := site_block_doc [10] (32 :: 40 :: [118;101;114;115;105;111;110;32] ++ version ++ [41; 10]) t.
+(* client_visitor: first docstring line  escape({title} (version {version}))  - version text is passed in *)
+Definition site_client_title (version t : str) : str :=
+  site_block_line (t ++ 32 :: 40 :: [118;101;114;115;105;111;110;32] ++ version ++ [41]).
 
 (* DocumentationWriter.render_docstring: text goes through textwrap (stdlib, external).  Its relevant
-   law, checked against the real output on every run: only WHITE SPACE is edited — every other
+   law, checked against the real output on every run: only WHITE SPACE is edited - every other
    character of t appears in the output in order, white space of t may be dropped / replaced by
    spaces and line breaks, spaces, tabs and line breaks may be inserted (column padding can be empty).
-   [layoutb t o] decides `o is such an edit of t` for the white-space-only inserted text. *)
+   [layoutb t o] decides that o is such an edit of t.  Each line of the layout is then escaped with
+   escape_docstring_text. *)
 Definition doc_ws (c : N) : bool :=   (* textwrap's whitespace + the extra characters str.splitlines() breaks at *)
   (c =? 9) || (c =? 10) || (c =? 11) || (c =? 12) || (c =? 13) || (c =? 32)
   || (c =? 28) || (c =? 29) || (c =? 30) || (c =? 133) || (c =? 8232) || (c =? 8233).
@@ -248,19 +307,32 @@ Fixpoint layoutb (t o : str) {struct o} : bool :=
            | [] => false
            end
   end.
-(* the docstring as emitted: QQQ + layout + QQQ where the layout ends with a line break *)
+(* inverse of the escaping on its image: backslash-backslash -> backslash, backslash-quote -> quote *)
+Fixpoint doc_unesc (e : str) : str :=
+  match e with
+  | c :: r => match r with
+              | d :: r' => if (c =? 92) && ((d =? 92) || (d =? 34)) then d :: doc_unesc r' else c :: doc_unesc r
+              | [] => [c]
+              end
+  | [] => []
+  end.
+Definition ends_lf (o : str) : bool := match rev o with c :: _ => c =? 10 | [] => false end.
+(* the docstring as emitted: QQQ + escape(layout) + QQQ where the layout ends with a line break *)
 Definition site_docwriter_rel (t out : str) : bool :=
   match out with
-  | a :: b :: c :: o => (a =? 34) && (b =? 34) && (c =? 34) &&
-      match rev o with
-      | z :: y :: x :: w :: ro => (z =? 34) && (y =? 34) && (x =? 34) && (w =? 10) && layoutb t (rev (w :: ro))
+  | a :: b :: c :: e3 => (a =? 34) && (b =? 34) && (c =? 34) &&
+      match rev e3 with
+      | z :: y :: x :: re => (z =? 34) && (y =? 34) && (x =? 34) &&
+          let e := rev re in let o := doc_unesc e in
+          str_eqb (doc_esc o) e && ends_lf o && layoutb (nul_sp t) o
       | _ => false
       end
   | _ => false
   end.
 
-(* comment site: render_dataclass  line += f`  # {desc.replace('\n', ' ')}` *)
-Definition site_field_comment (t : str) : str := 32 :: 32 :: 35 :: 32 :: nl_to_sp t.
+(* comment site: render_dataclass  line += f`  # {desc.replace(LF, space).replace(CR, space).replace(NUL, space)}`  [fix of F15e] *)
+Definition comment_clean (t : str) : str := map (fun c => if (c =? 10) || (c =? 13) || (c =? 0) then 32 else c) t.
+Definition site_field_comment (t : str) : str := 32 :: 32 :: 35 :: 32 :: comment_clean t.
 
 (* ------------------------------------------------------------------ the property, per site kind *)
 Definition hd_not_quote (rest : str) : Prop := match rest with c :: _ => c <> 34 | [] => True end.
